@@ -131,6 +131,40 @@ class History:
     def publish(self, mtype: int, payload: bytes, **kw):
         return self.frame(mtype, payload, f"(InData {self.it.pay(payload)})", **kw)
 
+    def short_control(self, name: str, payload: bytes, **kw):
+        """a control frame that declares (and carries) fewer bytes than its definition.  The manager decodes it from
+        its shared receive buffer; which bytes those are is observed in the implementation run (mgr_worker) and the
+        model is given the control message so decoded - see finalize()."""
+        h = self._hdr(MT[name], len(payload), **kw)
+        if not hasattr(self, "pending_eff"):
+            self.pending_eff = {}
+        self.pending_eff[h["count"]] = name
+        return dict(t="frame", h=h, payload=payload.hex()), f"IFrame {self._chdr(h)} @@EFF{h['count']}@@", h
+
+    def finalize(self, res: dict):
+        """substitute the payload each short control frame was decoded as (never processed: irrelevant, InNone)"""
+        for seq, name in getattr(self, "pending_eff", {}).items():
+            eff = (res.get("effective") or {}).get(str(seq))
+            inp = "InNone"
+            if eff:
+                b = bytes.fromhex(eff)
+                if name == "CONNECT":
+                    lg, dm = W.CONNECT.unpack(b)
+                    inp = f"(InConnect {z(lg)} {z(dm)})"
+                elif name == "CONNECT_V2":
+                    lg, dm, am, mid, pid, nmb = W.CONNECT_V2.unpack(b)
+                    nm = W.cstr(nmb[:32])
+                    inp = (f"(InConnectV2 {z(lg)} {z(dm)} {z(am)} {z(mid)} {z(pid)} {self.it.name(nm)} "
+                           f"{coq_bool(all(c < 128 for c in nm))})")
+                elif name in ("SUBSCRIBE", "UNSUBSCRIBE", "PAUSE_SUBSCRIPTION", "RESUME_SUBSCRIPTION"):
+                    inp = f"(InSub {z(W.SUB.unpack(b)[0])})"
+                elif name == "MODULE_READY":
+                    inp = f"(InReady {z(W.READY.unpack(b)[0])})"
+                elif name == "CLIENT_SET_NAME":
+                    nm = W.cstr(W.SETNAME.unpack(b)[0][:32])
+                    inp = f"(InName {self.it.name(nm)} {coq_bool(all(c < 128 for c in nm))})"
+            self.cevents = [e.replace(f"@@EFF{seq}@@", inp) for e in self.cevents]
+
     def raw(self, mtype: int, nbytes: int, **kw):
         """header with an arbitrary declared length and no payload bytes at all (only valid if the manager
         never tries to read them: nbytes == 0 or nbytes out of range)"""
@@ -338,6 +372,13 @@ def gen_frame(rng, hs: History, profile: str, c: int, ids: Dict[int, int], live:
         w.update(connect2=w["connect2"] * 4, connect1=w["connect1"] * 3)
     op = rng.choices(list(w), weights=list(w.values()))[0]
     my = ids.get(c, 0)
+    if mal and rng.random() < 0.08:
+        # a control frame shorter than its definition (decoded from the shared receive buffer)
+        name, size = rng.choice([("CONNECT", 4), ("CONNECT_V2", 44), ("SUBSCRIBE", 4), ("UNSUBSCRIBE", 4),
+                                 ("PAUSE_SUBSCRIPTION", 4), ("RESUME_SUBSCRIPTION", 4), ("CLIENT_SET_NAME", 32),
+                                 ("MODULE_READY", 4)])
+        k = rng.choice([0, 1, size - 1, rng.randrange(0, size)])
+        return hs.short_control(name, bytes(rng.getrandbits(8) for _ in range(k)))
     if op == "connect2":
         mid = rng.choice([0, 0, 0, 10, 10, 11, 12, 99, 100] + ([101, -1, 200, 32767, 1] if (mal or profile == "ids") else []))
         name = rng.choice(NAMES) if not mal else rng.choice(NAMES + [b"caf\xc3\xa9", b"\xff\xfe"])
